@@ -1,4 +1,5 @@
 import JSight.Props.C06
+import JSight.TreeStrip
 /-!
 # C13 — Meaning is invariant under surface syntax: the part that is a theorem
 
@@ -12,59 +13,6 @@ scanner / loader: validated against the code (harness `c13-metamorphic`, `schema
 -/
 namespace Props.C13
 open JsonScan
-
-/-- JSON values without layout -/
-inductive JT
-  | scalar (tok : List Cls)
-  | arr (items : List JT)
-  | obj (members : List (List Cls × JT))
-
-mutual
-def strip : JA → JT
-  | .scalar tok => .scalar tok
-  | .arr _ items => .arr (stripItems items)
-  | .obj _ members => .obj (stripMembers members)
-def stripItems : List (List Cls × JA × List Cls) → List JT
-  | [] => []
-  | (_, v, _) :: its => strip v :: stripItems its
-def stripMembers : List (List Cls × List Cls × List Cls × List Cls × JA × List Cls) → List (List Cls × JT)
-  | [] => []
-  | (_, k, _, _, v, _) :: ms => (k, strip v) :: stripMembers ms
-end
-
-mutual
-/-- the event types a value denotes -/
-def tys : JT → List LexT
-  | .scalar _ => [.litB, .litE]
-  | .arr its => .arrB :: tysItems its
-  | .obj ms => .objB :: tysMembers ms
-def tysItems : List JT → List LexT
-  | [] => [.arrE]
-  | v :: its => .itemB :: (tys v ++ .itemE :: tysItems its)
-def tysMembers : List (List Cls × JT) → List LexT
-  | [] => [.objE]
-  | (_, v) :: ms => .keyB :: .keyE :: .valB :: (tys v ++ .valE :: tysMembers ms)
-end
-
-mutual
-theorem evs_types : (o : Nat) → (v : JA) → (evsAt o v).map (·.ty) = tys (strip v)
-  | o, .scalar tok => by simp [evsAt, strip, tys]
-  | o, .arr ws0 items => by simp [evsAt, strip, tys, evsItems_types o (o + 1 + ws0.length) items]
-  | o, .obj ws0 members => by simp [evsAt, strip, tys, evsMembers_types o (o + 1 + ws0.length) members]
-theorem evsItems_types : (a o : Nat) → (its : List (List Cls × JA × List Cls)) →
-    (evsItems a o its).map (·.ty) = tysItems (stripItems its)
-  | a, o, [] => by simp [evsItems, stripItems, tysItems]
-  | a, o, (w1, v, w2) :: its => by
-    simp only [evsItems, stripItems, tysItems, List.map_cons, List.map_append, evs_types (o + w1.length) v]
-    rw [evsItems_types a _ its]
-theorem evsMembers_types : (a o : Nat) → (ms : List (List Cls × List Cls × List Cls × List Cls × JA × List Cls)) →
-    (evsMembers a o ms).map (·.ty) = tysMembers (stripMembers ms)
-  | a, o, [] => by simp [evsMembers, stripMembers, tysMembers]
-  | a, o, (w1, k, w2, w3, v, w4) :: ms => by
-    simp only [evsMembers, stripMembers, tysMembers, List.map_cons, List.map_append,
-      evs_types (o + w1.length + k.length + w2.length + 1 + w3.length) v]
-    rw [evsMembers_types a _ ms]
-end
 
 /-- re-spelling a document's whitespace does not change the event sequence the validator is fed -/
 theorem C13_whitespace_invariant (allow : Bool) (v v' : JA) (hv : v.Valid) (hv' : v'.Valid) (hs : strip v = strip v')
